@@ -53,6 +53,10 @@ def with_layout(a, layout):
     """The same values in another memory layout (what a caller may legitimately hand over):
     F = Fortran order; rev = a reversed view of reversed data (negative strides); str = every other column of a wider
     buffer; T = (2D automata) each grid a transposed view."""
+    if layout == "ro":                    # a read-only array (np.load(mmap_mode='r'), a frozen result, ...)
+        a = a.copy()
+        a.flags.writeable = False
+        return a
     if not layout or layout == "C" or a.ndim < 2 or a.size == 0:
         return a
     if layout == "F":
@@ -106,6 +110,16 @@ def shaped(fn, form, nargs=3):
         return lambda *a: fn(*a)
     if form == "method":
         return fn.__call__
+    if form.startswith("sub_") and nargs == 3:
+        # the user's rule is a SUBCLASS of one of the library's rule classes that overrides __call__ entirely
+        import cellpylib as cpl
+        cls, args = {"sub_total": (cpl.TotalisticRule, (2, 6)), "sub_nks": (cpl.NKSRule, (30,)),
+                     "sub_binary": (cpl.BinaryRule, (30,)), "sub_base": (cpl.BaseRule, ())}[form]
+
+        class UserRule(cls):
+            def __call__(self, n, c, t):
+                return fn(n, c, t)
+        return UserRule(*args)
     return fn
 
 
@@ -118,11 +132,32 @@ def np_scalar(x, form):
     return x
 
 
+def strict_ctx(on):
+    """np.seterr(all='raise') + warnings as errors, as some callers run their whole program."""
+    import contextlib
+    import warnings
+    st = contextlib.ExitStack()
+    if on:
+        st.enter_context(np.errstate(all="raise"))
+        st.enter_context(warnings.catch_warnings())
+        warnings.simplefilter("error")
+    return st
+
+
+def nested_of(c, ca, memo=None):
+    if not c.get("nested"):
+        return None
+    m = memo_value(memo if memo is not None else c["memo"])
+    return dict(dim=ca.ndim - 1, shape=ca.shape[1:], dtype=ca.dtype, r=c["r"], T=c.get("T", 3), dyn="T" not in c,
+                nb={"moore": "Moore", "vn": "von Neumann"}.get(c.get("nb"), "Moore"), memo=m if m in (False, True, "recursive") else False)
+
+
 def run_impl(c, memo=None):
     import cellpylib as cpl
     ca = make_ca(c)
     snapshot = ca.tobytes()
-    rule = Rule(c["rule"], c.get("scale", 1), clobber=bool(c.get("clobber")), mixret=c.get("mixret") or False)
+    rule = Rule(c["rule"], c.get("scale", 1), clobber=bool(c.get("clobber")), mixret=c.get("mixret") or False,
+                nested=nested_of(c, ca, memo))
     pred = None
     if "T" in c:
         ts = c["T"]
@@ -132,10 +167,20 @@ def run_impl(c, memo=None):
     out = Run()
     out.rule, out.pred, out.ca = rule, pred, ca
     out.exc = None
+    import contextlib
+    import warnings
+    strict = contextlib.ExitStack()
+    if c.get("strict"):
+        # the caller runs with NumPy errors raised and warnings as errors: integer automata and rules give no cause for either
+        strict.enter_context(np.errstate(all="raise"))
+        cw = warnings.catch_warnings()
+        strict.enter_context(cw)
+        warnings.simplefilter("error")
     try:
+      with strict:
         out.res = cpl.evolve(ca, timesteps=np_scalar(ts, c.get("npform")) if "T" in c else ts,
-                             apply_rule=shaped(rule, c.get("callform")), r=np_scalar(c["r"], c.get("npform")),
-                             memoize=memo_value(memo if memo is not None else c["memo"]))
+                               apply_rule=shaped(rule, c.get("callform")), r=np_scalar(c["r"], c.get("npform")),
+                               memoize=memo_value(memo if memo is not None else c["memo"]))
     except Exception as e:  # noqa
         out.exc = e
         out.res = None
